@@ -21,12 +21,22 @@ _TEXT_C06 = ("files written by Spec.File.write, a specification-following refere
              "equal the stored ones; files using data page v2, other value encodings, BIT_PACKED levels, LZO / BROTLI / unknown "
              "codec tags or a BOOLEAN dictionary must end in an error with only a correct prefix delivered; damaged files "
              "(dictionary shorter than announced, cut level / index streams, index width > 32, wrong uncompressed size) must "
-             "never yield wrong values. Proved: Spec.File.read (Spec.File.write t l) = ok t for the whole file for the PLAIN class "
-             "of layouts (no dictionary, uncompressed, no unknown fields; free: any schema tree, all types, any nesting, row "
-             "groups, page split, run plans of both level streams, Thrift header form of footer and pages, CRCs, page "
-             "statistics, gaps) - C06_reference_selfconsistent_partial, with the layers as separate theorems (envelope, Thrift round trip "
-             "for every header form, footer extraction, schema tree, levels, PLAIN values, page, page chaining, chunk); for "
-             "the remaining layouts (dictionary, compression, unknown fields) the equation is evaluated at run "
+             "never yield wrong values. Proved: C06_reference_selfconsistent - Spec.File.read (Spec.File.write t l) with the "
+             "writer's oracle table = ok t for the WHOLE FILE and EVERY admissible layout (layoutAdm, a decidable Bool: data page v1, "
+             "undamaged, PLAIN or dictionary value encoding under tag 2/8, any compression plan (LZ4 under tag 5 or 7, GZIP FNAME without zero byte), codec tag = the plans' codec, "
+             "unknown fields with ids outside the parquet.thrift tables; free: schema tree, types, nesting, row groups, page split, "
+             "run plans of level and index streams, index width <= 32, dictionary order/duplicates/unused entries, dictionary offset "
+             "present/absent, PLAIN pages before/after dictionary pages, SNAPPY op lists, LZ4/LZ4_RAW sequence lists, GZIP stored "
+             "blocks and ZSTD raw/RLE blocks through the oracle table, CRCs, page and chunk statistics, header forms, unknown fields "
+             "at every level, gaps) under explicit size bounds (footer value well-formed, every total_uncompressed_size < 2^31, file "
+             "< 2 GiB, chunks < 2^31 entries); the oracle table the writer emits is proved coherent (stored-block GZIP members "
+             "and raw/RLE-block ZSTD frames are decodable), and the theorem also holds for any foreign table that maps the "
+             "stored bodies to their contents; all hypotheses are one decidable Bool (Spec.File.selfConsistencyHyp) which the "
+             "generator evaluates per file (hyp=1 on every supported file, 0 on every unsupported / damaged one, checked as a "
+             "model tie); layers as separate theorems (envelope, Thrift round trip "
+             "for every header form, footer extraction, unknown fields threaded through every extraction function, schema tree, "
+             "levels, PLAIN and dictionary values, compressed bodies, page, page chaining, chunk with and without dictionary page); "
+             "the PLAIN-class theorem C06_reference_selfconsistent_partial is kept. The equation is additionally evaluated at run "
              "time for every generated file (selfcheck). "
              "Eight defects of the reader found and repaired (F12 F26 F27 F52 F53 F54 F55 F58).")
 _TEXT_C16 = ("page-header statistics of files written by the real writer are checked by the independent reader for every page "
@@ -55,7 +65,7 @@ PART = {
     technique="independent executable format specification in Lean evaluated on every file the real writer produces",
   ),
   "C06": dict(
-    imports=["Carquet.Properties.C06.SpecFile"],
+    imports=["Carquet.Properties.C06.SpecFile", "Carquet.Properties.C06.SpecFileFull"],
     obligations=["Carquet.Properties.C06.C06_envelope_roundtrip",
                  "Carquet.Properties.C06.C06_thrift_forms_roundtrip",
                  "Carquet.Properties.C06.C06_footer_thrift_roundtrip",
@@ -66,7 +76,18 @@ PART = {
                  "Carquet.Properties.C06.C06_page_roundtrip",
                  "Carquet.Properties.C06.C06_page_chaining",
                  "Carquet.Properties.C06.C06_chunk_roundtrip",
-                 "Carquet.Properties.C06.C06_reference_selfconsistent_partial"],
+                 "Carquet.Properties.C06.C06_reference_selfconsistent_partial",
+                 "Carquet.Properties.C06.C06_values_roundtrip",
+                 "Carquet.Properties.C06.C06_compressed_body_roundtrip",
+                 "Carquet.Properties.C06.C06_unknown_fields_threaded",
+                 "Carquet.Properties.C06.C06_page_chaining_full",
+                 "Carquet.Properties.C06.C06_chunk_roundtrip_dictionary",
+                 "Carquet.Properties.C06.C06_admissible_sound",
+                 "Carquet.Properties.C06.C06_reference_selfconsistent",
+                 "Carquet.Properties.C06.C06_reference_selfconsistent_oracle",
+                 "Carquet.Properties.C06.C06_writer_oracle_coherent",
+                 "Carquet.Properties.C06.C06_reference_selfconsistent_write",
+                 "Carquet.Properties.C06.C06_reference_selfconsistent_checked"],
     components=["refread"],
     pregen={"refread": "reffiles"},
     fidelity={"Spec.File.write / Spec.File.read": "Spec layer (reference writer and independent reader)"},
